@@ -407,8 +407,8 @@ pub fn kind_at(root: &GreenNode, off: u32) -> TokenKind {
     }
 }
 
-/// The comma of a one-element tuple expression / type / pattern `(x,)` is not an optional separator: without it the
-/// text is a parenthesised expression.  `i` is the index of a comma directly before a closing bracket.
+/// The comma of a one-element tuple EXPRESSION `(x,)` is not an optional separator: without it the text is a
+/// parenthesised expression.  `i` is the index of a comma directly before a closing bracket.
 fn mandatory_single_tuple_comma(code: &[Tok], i: usize) -> bool {
     let mut depth = 0usize;
     let mut j = i;
@@ -419,8 +419,9 @@ fn mandatory_single_tuple_comma(code: &[Tok], i: usize) -> bool {
             depth += 1;
         } else if t.text == "(" || t.text == "[" || t.text == "{" || t.text == "|" {
             if depth == 0 {
-                return t.text == "("
-                    && matches!(t.parent, TokenKind::TUPLE_EXPR | TokenKind::TUPLE_TYPE | TokenKind::TUPLE_PATTERN);
+                // only in expression position: `(T)` as a type and `(p)` as a pattern are one-element tuples with or
+                // without the comma (checked against the front end), `(e)` is a parenthesised expression
+                return t.text == "(" && matches!(t.parent, TokenKind::TUPLE_EXPR);
             }
             depth -= 1;
         } else if t.text == "," && depth == 0 {
